@@ -42,6 +42,47 @@ FORMULA_A = 'L1 + L2'
 FORMULA_M = 'A + L1 + L2'
 FORMULA_Y = 'A + L1 + L2'
 
+# The documented parameter order (and documented defaults) of every estimator method that takes `bound` -- the
+# signature printed in the reference documentation, which is also the order of each docstring's Parameters section.
+# A call that hands the arguments over POSITIONALLY in this order means the same as the keyword call (round 4).
+REQ = object()
+_W5 = [('model_denominator', REQ), ('model_numerator', None), ('stabilized', True), ('bound', False), ('print_results', True)]
+_M4 = [('model', REQ), ('custom_model', None), ('bound', False), ('print_results', True)]
+_G5 = [('model_denominator', REQ), ('model_numerator', '1'), ('bound', None), ('stabilized', True), ('print_results', True)]
+_CF = [('covariates', REQ), ('estimator', REQ), ('bound', False)]
+DOC = {
+    'IPTW.treatment_model': [('model_denominator', REQ), ('model_numerator', '1')] + _W5[2:],
+    'IPTW.missing_model': _W5,
+    'GEstimationSNM.missing_model': _W5,
+    'AIPTW.exposure_model': _M4, 'AIPTW.missing_model': _M4,
+    'TMLE.exposure_model': _M4, 'TMLE.missing_model': _M4,
+    'TMLE.outcome_model': _M4 + [('continuous_distribution', 'gaussian')],
+    'StochasticTMLE.exposure_model': _M4[:3],
+    'StochasticTMLE.outcome_model': _M4[:3] + [('continuous_distribution', 'gaussian')],
+    'IPSW.sampling_model': _G5, 'IPSW.treatment_model': _G5,
+    'AIPSW.treatment_model': _G5[:4] + [('print_results', False)],
+    'SingleCrossfitAIPTW.exposure_model': _CF, 'DoubleCrossfitAIPTW.exposure_model': _CF,
+    'SingleCrossfitTMLE.exposure_model': _CF, 'DoubleCrossfitTMLE.exposure_model': _CF,
+}
+
+
+def invoke(obj, name, cfg, **given):
+    """call the method `name` ('Class.method') of `obj` with the arguments `given`: required arguments positionally and
+    the options by keyword (the form of every example in the documentation), or -- cfg['_pos'] -- everything
+    positionally in the documented order, options not given filled in with their documented defaults, up to the last
+    one given"""
+    import contextlib
+    import io
+    meth = getattr(obj, name.split('.')[1])
+    order = DOC[name]
+    assert set(given) <= {k for k, _ in order}, (name, given)
+    with contextlib.redirect_stdout(io.StringIO()):
+        if not cfg.get('_pos'):
+            req = [given.pop(k) for k, d in order if d is REQ]
+            return meth(*req, **given)
+        last = max(i for i, (k, _) in enumerate(order) if k in given)
+        return meth(*[given[k] if k in given else d for k, d in order[:last + 1]])
+
 
 # =====================================================================================  part A: the helper
 def same(a, b):
@@ -382,8 +423,8 @@ def run_iptw(data, cfg, bound):
     ipt = IPTW(data['full'], 'A', 'Y', standardize=cfg['std'])
 
     def specify(b):
-        ipt.treatment_model(FORMULA_A, model_numerator=cfg.get('num', '1'), bound=b, stabilized=cfg['stab'],
-                            print_results=False)
+        invoke(ipt, 'IPTW.treatment_model', cfg, model_denominator=FORMULA_A, model_numerator=cfg.get('num', '1'),
+               bound=b, stabilized=cfg['stab'], print_results=False)
 
     def finish():
         ipt.marginal_structural_model('A')
@@ -405,7 +446,8 @@ def run_iptw_miss(data, cfg, bound):
     ipt.treatment_model(FORMULA_A, print_results=False)
 
     def specify(b):
-        ipt.missing_model(FORMULA_M, bound=b, stabilized=cfg['stab'], print_results=False)
+        invoke(ipt, 'IPTW.missing_model', cfg, model_denominator=FORMULA_M, bound=b, stabilized=cfg['stab'],
+               print_results=False)
 
     def finish():
         ipt.marginal_structural_model('A')
@@ -425,7 +467,8 @@ def run_snm_miss(data, cfg, bound):
     g.exposure_model(FORMULA_A, print_results=False)
 
     def specify(b):
-        g.missing_model(FORMULA_M, bound=b, stabilized=cfg['stab'], print_results=False)
+        invoke(g, 'GEstimationSNM.missing_model', cfg, model_denominator=FORMULA_M, bound=b, stabilized=cfg['stab'],
+               print_results=False)
 
     def finish():
         g.structural_nested_model('A')
@@ -451,9 +494,9 @@ def run_aiptw(data, cfg, bound):
 
     def specify(b):
         if which == 'exposure':
-            a.exposure_model(FORMULA_A, bound=b, print_results=False)
+            invoke(a, 'AIPTW.exposure_model', cfg, model=FORMULA_A, bound=b, print_results=False)
         else:
-            a.missing_model(FORMULA_M, bound=b, print_results=False)
+            invoke(a, 'AIPTW.missing_model', cfg, model=FORMULA_M, bound=b, print_results=False)
 
     def finish():
         a.outcome_model(FORMULA_Y, print_results=False)
@@ -491,11 +534,11 @@ def run_tmle(data, cfg, bound):
 
     def specify(b):
         if which == 'exposure':
-            t.exposure_model(FORMULA_A, bound=b, print_results=False)
+            invoke(t, 'TMLE.exposure_model', cfg, model=FORMULA_A, bound=b, print_results=False)
         elif which == 'missing':
-            t.missing_model(FORMULA_M, bound=b, print_results=False)
+            invoke(t, 'TMLE.missing_model', cfg, model=FORMULA_M, bound=b, print_results=False)
         else:
-            t.outcome_model(FORMULA_Y, bound=b, print_results=False)
+            invoke(t, 'TMLE.outcome_model', cfg, model=FORMULA_Y, bound=b, print_results=False)
 
     def finish():
         if which != 'outcome':
@@ -542,9 +585,9 @@ def run_stmle(data, cfg, bound):
 
     def specify(b):
         if which == 'exposure':
-            s.exposure_model(FORMULA_A, bound=b)
+            invoke(s, 'StochasticTMLE.exposure_model', cfg, model=FORMULA_A, bound=b)
         else:
-            s.outcome_model(FORMULA_Y, bound=b)
+            invoke(s, 'StochasticTMLE.outcome_model', cfg, model=FORMULA_Y, bound=b)
 
     def finish():
         if which == 'exposure':
@@ -577,7 +620,8 @@ def run_ipsw(data, cfg, bound):
     s = IPSW(data['sel'], 'A', 'Y', 'S', generalize=cfg['gen'])
 
     def specify(b):
-        s.sampling_model(FORMULA_A, bound=b if b else None, stabilized=cfg['stab'], print_results=False)
+        invoke(s, 'IPSW.sampling_model', cfg, model_denominator=FORMULA_A, bound=b if b else None,
+               stabilized=cfg['stab'], print_results=False)
 
     def finish():
         s.fit()
@@ -599,7 +643,8 @@ def run_ipsw_trt(data, cfg, bound):
     s.sampling_model(FORMULA_A, print_results=False)
 
     def specify(b):
-        s.treatment_model(FORMULA_A, bound=b if b else None, stabilized=cfg['stab'], print_results=False)
+        invoke(s, cfg['cls'] + '.treatment_model', cfg, model_denominator=FORMULA_A, bound=b if b else None,
+               stabilized=cfg['stab'], print_results=False)
 
     def finish():
         if cfg['cls'] == 'AIPSW':
@@ -622,7 +667,8 @@ def run_crossfit(data, cfg, bound):
     c = cls(data['full'], 'A', 'Y')
 
     def specify(b):
-        c.exposure_model(FORMULA_A, GLMSL(sm.families.family.Binomial()), bound=b)
+        invoke(c, cfg['cls'] + '.exposure_model', cfg, covariates=FORMULA_A,
+               estimator=GLMSL(sm.families.family.Binomial()), bound=b)
 
     def finish():
         c.outcome_model(FORMULA_Y, GLMSL(sm.families.family.Binomial()))
@@ -983,6 +1029,7 @@ def estimators(chk, drv, rng, tier):
     ndata = 6 if tier == 'quick' else 24
     ncf = 2 if tier == 'quick' else 6
     ncf_done = 0
+    pos_seen = {}
     for di in range(ndata):
         # one data set in three has fitted risks beyond 0.0005 / 0.9995 (rare outcome, strong predictor)
         data = gen_data(rng, extreme=(di % 3 == 1), index_kind=['default', 'shuffled', 'string'][(di + di // 3) % 3])
@@ -998,7 +1045,7 @@ def estimators(chk, drv, rng, tier):
                 if data['extreme'] or ncf_done >= ncf:
                     continue
                 ncf_done += 1 if cells and site == 'crossfit' else 0
-            for cfg in cells:
+            for ci, cfg in enumerate(cells):
                 try:
                     U = runner(data, cfg, False)
                 except Exception as ex:                          # noqa: BLE001
@@ -1035,7 +1082,17 @@ def estimators(chk, drv, rng, tier):
                 for kind, bound in bounds.items():
                     if kind == 'reached_tuple' and tier == 'quick' and site != 'TMLE':
                         continue
-                    fresh[kind] = estimator_case(chk, drv, site, runner, cfg, data, U, kind, bound, note)
+                    cfg_run = cfg
+                    if kind == 'reached_asym':
+                        # call convention (round 4): on every other data set a cell sees, the reachable asymmetric bound is
+                        # handed over POSITIONALLY in the documented parameter order (with the other options); it must be
+                        # applied exactly as the keyword form is -- same predicates, same unbounded run to compare with
+                        k = pos_seen.get((site, ci), 0)
+                        pos_seen[(site, ci)] = k + 1
+                        if (k + ci) % 2 == 0:
+                            cfg_run = dict(cfg, _pos=True)
+                            chk.count('call_convention_positional|%s' % site)
+                    fresh[kind] = estimator_case(chk, drv, site, runner, cfg_run, data, U, kind, bound, note)
                 # ---- histories on one object: the last specification is the one that counts
                 hk = 'reached_sym' if fresh.get('reached_sym') is not None else 'reached_asym'
                 if fresh.get(hk) is not None:
